@@ -45,6 +45,7 @@ def gaf_reader(ctx):
 
     ctx.run(c17.r17_1)
     ctx.run(c17.r17_5)
+    ctx.run(c17.r17_8)
     ctx.run(r17_6)
     ctx.run(r16_9)
 
